@@ -41,6 +41,8 @@ inductive Tr : Book → Book → Prop
   /-- a new vertex is inserted with edges from (some of) its declared, live parents -/
   | insert {b} (v : Vertex) (es : List (Hash × Hash)) : InsertOK b v →
       (∀ e ∈ es, e.2 = v.hash ∧ (e.1 = v.left ∨ e.1 = v.right) ∧ b.hasVertex e.1 = true ∧ e.1 ≠ v.hash) →
+      -- unless the left parent is the zero hash (Go's `addedHash` sentinel) both declared parents are live and linked
+      (v.left ≠ 0 → (v.left, v.hash) ∈ es ∧ (v.right, v.hash) ∈ es ∧ b.hasVertex v.left = true ∧ b.hasVertex v.right = true) →
       Tr b { b with index := b.index ++ [(v.trx.hash, v.hash)], verts := b.verts ++ [v], edges := b.edges ++ es }
   /-- roll-back after a failed AddEdge: the fresh vertex, its index entry and its edges disappear again -/
   | unlink {b} (h : Hash) : b.hasVertex h = false → Tr b { b with edges := b.edges.filter (fun e => e.1 != h && e.2 != h) }
@@ -167,14 +169,28 @@ theorem steps_insertLinked (b : Book) (v : Vertex) (pre : PreInsert b v) :
         obtain ⟨es, rfl, hes⟩ := linkNew_some h4
         have ok : InsertOK b v := ⟨pre.loaded, pre.notOwn, pre.notGenesis, pre.notEmpty, pre.canon, pre.vok,
           by simpa [hasVertex] using hfreshV', pre.freshCp, hfreshT⟩
-        have := Tr.insert (b := b) v es ok (by
-          intro e he
-          obtain ⟨h1, h2, h3, h4⟩ := hes e he
-          refine ⟨h1, hps _ h2, ?_, h4⟩
+        have hlive : ∀ p : Hash, p ≠ v.hash →
+            ({ b with index := b.index ++ [(v.trx.hash, v.hash)], verts := b.verts ++ [v] } : Book).hasVertex p = true →
+            b.hasVertex p = true := by
+          intro p hne h3
           simp only [hasVertex, List.any_append, List.any_cons, List.any_nil, Bool.or_false, Bool.or_eq_true] at h3
           rcases h3 with h3 | h3
           · simpa [hasVertex] using h3
-          · exact absurd (by simpa using h3) (Ne.symm h4))
+          · exact absurd (by simpa using h3) (Ne.symm hne)
+        have := Tr.insert (b := b) v es ok (by
+          intro e he
+          obtain ⟨h1, h2, h3, h4⟩ := hes e he
+          exact ⟨h1, hps _ h2, hlive _ h4 h3, h4⟩) (by
+          intro hl
+          obtain ⟨es', e', m1, m2, l1, l2⟩ := linkNew_pair h4 hl
+          have ees : es' = es := by
+            have := congrArg Book.edges e'
+            simp only at this
+            exact (List.append_cancel_left this).symm
+          subst ees
+          have n1 := (hes _ m1).2.2.2
+          have n2 := (hes _ m2).2.2.2
+          exact ⟨m1, m2, hlive _ n1 l1, hlive _ n2 l2⟩)
         exact Steps.single this
 
 /-! ### frame: what no transition changes -/
@@ -184,7 +200,7 @@ theorem Tr.frame {b b' : Book} (t : Tr b b') :
   cases t with
   | misc h => exact ⟨h.2.2.2.2.2.2.2.1, h.2.2.2.2.2.1, h.2.2.2.2.2.2.1, h.2.2.2.1, h.2.2.2.2.1⟩
   | drop v hv => simp
-  | insert v es ok hes => simp
+  | insert v es ok hes hcomp => simp
   | unlink h hh => simp
 
 theorem Steps.frame {b b' : Book} (s : Steps b b') :
